@@ -7,7 +7,7 @@ use std::cmp;
 use std::collections::{BTreeMap, BinaryHeap};
 use std::rc::Rc;
 
-#[derive(PartialEq, Ord, Eq, Debug)]
+#[derive(PartialEq, Ord, Eq, Debug, Clone)]
 pub struct Factors(pub usize, pub Vec<Rc<String>>);
 
 impl cmp::PartialOrd for Factors {
@@ -23,10 +23,25 @@ pub fn factorize(
     value: &Number,
     quantities: &BTreeMap<Dimensionality, Rc<String>>,
 ) -> BinaryHeap<Factors> {
+    factorize_memo(value, quantities, &mut BTreeMap::new())
+        .into_iter()
+        .collect()
+}
+
+// The result only depends on the dimensionality that is left to factorize,
+// and the same remainders are reached along many different paths, so they
+// are remembered. Without this the search takes time exponential in the
+// complexity of the unit.
+fn factorize_memo(
+    value: &Number,
+    quantities: &BTreeMap<Dimensionality, Rc<String>>,
+    memo: &mut BTreeMap<Dimensionality, Vec<Factors>>,
+) -> Vec<Factors> {
     if value.dimless() {
-        let mut map = BinaryHeap::new();
-        map.push(Factors(0, vec![]));
-        return map;
+        return vec![Factors(0, vec![])];
+    }
+    if let Some(found) = memo.get(&value.unit) {
+        return found.clone();
     }
     let mut candidates: BinaryHeap<Factors> = BinaryHeap::new();
     let value_score = value.complexity_score();
@@ -42,7 +57,7 @@ pub fn factorize(
         if score >= value_score {
             continue;
         }
-        let res = factorize(&res, quantities);
+        let res = factorize_memo(&res, quantities, memo);
         for Factors(score, mut vec) in res {
             vec.push(name.clone());
             vec.sort();
@@ -53,5 +68,8 @@ pub fn factorize(
         candidates = next.into_iter().take(10).collect();
     }
     assert!(candidates.len() <= 10);
-    candidates
+    // in the order a BinaryHeap hands its elements out
+    let result: Vec<Factors> = candidates.into_iter().collect();
+    memo.insert(value.unit.clone(), result.clone());
+    result
 }
